@@ -29,6 +29,25 @@ EXPLANATION = (
 NOT_DECIDED = "Equality of results across repeated/concurrent runs as such; behaviour of user objects that refuse deepcopy (reported as GraphConfigError by design)."
 
 
+def check_inputs_from_resolver(ctx, rule: str) -> None:
+    """Every value placed in the dict a node's inputs are collected into comes from the per-node, per-parameter
+    resolver call (which classifies the value for *this* node and copies signature defaults): no entry is taken
+    from anywhere else (a memo shared between nodes, another node's resolved value)."""
+    db, rep = ctx.db, ctx.rep
+    ci = db.func("runners._shared.helpers.collect_inputs_for_node")
+    rets = [n.value for n in walk_local(ci.node) if isinstance(n, ast.Return) and n.value is not None]
+    ret_names = {r.id for r in rets if isinstance(r, ast.Name)}
+    stores = [n for n in walk_local(ci.node) if isinstance(n, ast.Assign) and isinstance(n.targets[0], ast.Subscript) and isinstance(n.targets[0].value, ast.Name) and n.targets[0].value.id in ret_names]
+    comps = [r for r in rets if isinstance(r, ast.DictComp)] + [d.value for nm in ret_names for d in db.local_defs(ci).get(nm, []) if isinstance(getattr(d, "value", None), ast.DictComp)]
+
+    def from_resolver(v: ast.AST) -> bool:
+        return isinstance(v, ast.Call) and "_resolve_input" in call_names(db, v, ci)
+
+    bad = [n for n in stores if not from_resolver(n.value)] + [c for c in comps if not from_resolver(c.value)]
+    ok = bool(stores or comps) and not bad
+    rep.add(rule, f"{ci.qname}:uses-resolver", ok, f"{ci.module.rel}:{bad[0].lineno if bad else ci.lineno}", "every input of a node is obtained from _resolve_input for that node and parameter" if ok else (f"'{src(bad[0])[:70]}' puts a value into a node's inputs that does not come from the resolver call for this node and parameter: a value resolved for another node (e.g. its signature default, copied once) is shared between consumers" if bad else "collect_inputs_for_node bypasses the copying resolver"))
+
+
 def run(ctx) -> None:
     db, rep = ctx.db, ctx.rep
     E = Effects(db)
@@ -110,11 +129,7 @@ def run(ctx) -> None:
     rets = [n for n in walk_local(sd.node) if isinstance(n, ast.Return)]
     ok = bool(rets) and all(isinstance(r.value, ast.Call) and dotted(r.value.func) == "copy.deepcopy" and r.value.args and src(r.value.args[0]) == sd.positional_params[0] for r in rets)
     rep.add("C18.R1", f"{sd.qname}:is-deepcopy", ok, sd.loc(), "the helper returns copy.deepcopy(value)" if ok else "the copy helper no longer returns copy.deepcopy of its argument (e.g. a shallow copy shares nested containers)")
-    ci = db.func("runners._shared.helpers.collect_inputs_for_node")
-    ok = any(isinstance(n, ast.Assign) and isinstance(n.targets[0], ast.Subscript) and isinstance(n.value, ast.Call) and "_resolve_input" in call_names(db, n.value, ci) for n in walk_local(ci.node)) or any(
-        isinstance(n, ast.DictComp) and isinstance(n.value, ast.Call) and "_resolve_input" in call_names(db, n.value, ci) and not n.generators[0].ifs for n in walk_local(ci.node)
-    )
-    rep.add("C18.R1", f"{ci.qname}:uses-resolver", ok, ci.loc(), "every input of a node is obtained from _resolve_input" if ok else "collect_inputs_for_node bypasses the copying resolver")
+    check_inputs_from_resolver(ctx, "C18.R1")
 
     # ---- R5: who may copy a value ------------------------------------------------
     allowed = {"hypergraph.runners._shared.helpers._safe_deepcopy": "signature defaults", "hypergraph.runners._shared.helpers._clone_value": "explicit map_over(clone=...) of broadcast values"}
